@@ -8,8 +8,11 @@ Monitors (post-conditions on every execution, wherever the call comes from):
   fas2values / fas2signal -> length, real-valuedness, forward spectrum of the result equals the given bins, the
                              spectrum array passed in is bit-for-bit unchanged (it may be an object's cached spectrum);
   im.max_fa_period   -> the reported period is that of a largest-amplitude bin.
+Every monitored call is judged against a snapshot of the record taken at call entry, and the record must be bit-for-bit
+unchanged afterwards (argument-unchanged[record]).
 Relations between executions (checked by the driver on the returned values): object == array level, linearity,
-trailing zeros that keep N, round trip record -> spectrum -> inverse helper.
+trailing zeros that keep N, round trip record -> spectrum -> inverse helper, results held from a first record intact
+after a second record of the same shape went through the same paths (back-to-back.first-result-intact).
 """
 import weakref
 
@@ -27,33 +30,52 @@ RTOL_TIE = 1e-12       # amplitude tie for the dominant period
 RTOL_PARSEVAL = 1e-9   # relative to dt*sum x^2 (all terms non-negative)
 RTOL_INV = 1e-10       # inverse helper, relative to max|x| (round trip) / to the bound 2*sum|fas|/(N*dt) (real part)
 FULL_N = 4096          # every bin is compared up to this N; above it a deterministic sample of N_SAMPLED bins
-N_SAMPLED = 256
+N_SAMPLED = 256        # (64 bins above N = 32768: the few long records past 2**16)
+# single-precision class: numpy transforms a float32 record in float32 (result complex64) and a np.float32 dt makes N*dt a
+# float32 product; such inputs are judged with tolerances of that precision class instead of being skipped
+LOOSE = {'bin': 1e-5, 'freq': 1e-6, 'parseval': 1e-4, 'inv': 1e-5}
+TIGHT = {'bin': RTOL_BIN, 'freq': RTOL_FREQ, 'parseval': RTOL_PARSEVAL, 'inv': RTOL_INV}
 
 RULE = ('case = (record, dt, Signal|AccSignal, p2_plus, explicit n); each case runs the lazy default spectrum, '
-        'gen_fa_spectrum(p2_plus), gen_fa_spectrum(n), generate_fa_spectrum(n_pad True/False), calc_fa_spectrum() / '
-        '(p2_plus) / (n), fas2values, fas2signal and max_fa_period through the public names; relation cases add a second '
-        'record (linearity) or trailing zeros. Lengths: EVERY npts 2..130 (x2 quick, x6 thorough; explicit n cycles '
-        'through npts, npts+1, next odd, next even, next pow2, random), every 2^e-1, 2^e, 2^e+1 up to 2048 (thorough 4096), '
-        'log-uniform random lengths up to 2048 (thorough 4096); record classes and dt classes of vf/gen.py; '
-        'distinct = digest(values, dt, class, options); non-trivial = record not identically zero. '
-        'Object histories (Signal and AccSignal): [optional gen_fa_spectrum(p2_plus|n)] -> 1..3 reads of fa_spectrum / '
-        'fa_freqs / fa_frequencies / max_fa_period in random order -> ONE or TWO public mutators (every mutator kind is '
-        'the first one of a history in turn: reset_values same/shorter/longer, add_constant, add_series, add_signal, '
-        'butter_pass band/low/high, remove_average, remove_poly 0..3, running_average; AccSignal also '
-        'remove_rolling_average velocity/acceleration, rebase_displacement, set_zero_residual_velocity None/(t0,t1)/(t0,None), '
-        'set_zero_residual_displacement, set_zero_residual_displacement_and_velocity None/(t0,t1)/(t0,None), correct_me) '
-        '-> reads again under the lazy monitor; records >= 64 samples for filters and baseline corrections. Interaction '
-        'steps take the place of a mutator: fas2values / fas2signal(stype signal|acc) called with the very array '
-        'sig.fa_spectrum returns (default padding or after gen_fa_spectrum(p2_plus|n)), record with a clearly non-zero mean.')
-ASSUMPTIONS = ['real, finite, 1-D float64/integer record of length >= 2; dt > 0 finite (float32 records are computed in '
-               'single precision by numpy and are counted, not judged)',
-               'explicit n >= npts (n < npts truncates: outside "zero-padded", counted, not judged)',
-               'p2_plus integer 0..3',
-               'bins compared completely for N <= 4096, on 256 deterministic bins above (p2_plus on long records)',
+        'gen_fa_spectrum(p2_plus), gen_fa_spectrum(n), [gen_fa_spectrum(p2_plus, n) together], generate_fa_spectrum(n_pad '
+        'True/False), calc_fa_spectrum() / (p2_plus) / (n), fas2values, fas2signal and max_fa_period through the public '
+        'names; relation cases add a second record (linearity), trailing zeros, or a second record of the same shape '
+        'processed back to back while the first results are held. Lengths: EVERY npts 2..130 (x4 quick, x12 thorough; '
+        'explicit n cycles through npts, npts+1, next odd, next even, next pow2, random), every 2^e-1, 2^e, 2^e+1 up to 2048 '
+        '(thorough 4096), log-uniform random lengths up to 2048 (thorough 4096), 4 (thorough 32) records just past 2**16. '
+        'Record forms: float64, float32, int64, int32/int16/int8/uint8/uint16 filling the dtype range, lists/tuples of '
+        'floats, of ints, mixed, strided / reversed views, read-only arrays; amplitudes 1e-12..1e12, 1e-3 signal on a 1e6 '
+        'offset, extreme at the first/last sample, flat ends; dt: vf/gen.py classes, decades 1e-9..1e3, int, np.float64, '
+        'np.float32; integer options as int / np.int64 / np.int32, passed by keyword, positionally, or all-keyword; the '
+        'spectrum handed to the inverse helpers as the object\'s own array, a caller array, list, tuple, read-only, '
+        'strided view or complex64, the same object to 2-3 consecutive calls. '
+        'distinct = digest(values, container, dt, class, options); non-trivial = record not identically zero. '
+        'Object histories (Signal and AccSignal, optionally twin objects built from one caller array / from each other\'s '
+        'values / reset to one array): steps in random order with repeats - reads of fa_spectrum / fa_freqs / '
+        'fa_frequencies / max_fa_period, explicit gen_fa_spectrum(p2_plus|n), generate_/calc_fa_spectrum on the object, '
+        'ONE or TWO public mutators (every mutator kind is the first one of a history in turn: reset_values '
+        'same/shorter/longer, add_constant, add_series (also the object\'s own values), add_signal (also itself), '
+        'butter_pass band/low/high with list/tuple/array cut-offs, remove_average, remove_poly 0..3, running_average; '
+        'AccSignal also remove_rolling_average velocity/acceleration, rebase_displacement, set_zero_residual_velocity '
+        'None/(t0,t1)/(t0,None), set_zero_residual_displacement, set_zero_residual_displacement_and_velocity '
+        'None/(t0,t1)/(t0,None), correct_me), interaction steps fas2values / fas2signal(stype signal|acc) on the very '
+        'array sig.fa_spectrum returns (record with a clearly non-zero mean) - each followed by reads under the lazy '
+        'monitor; records >= 64 samples for filters and baseline corrections.')
+ASSUMPTIONS = ['real, finite, 1-D record of length >= 2 (one-sample and float16 records: counted, not judged); dt > 0 finite',
+               'single-precision class: numpy transforms a float32 record in float32 (complex64 result) and a np.float32 dt '
+               'makes N*dt a float32 product; such inputs are judged with rtol 1e-5 (bins) / 1e-6 (frequencies) / 1e-4 '
+               '(Parseval) instead of 1e-10 / 1e-13 / 1e-9',
+               'explicit n >= npts (n < npts truncates: outside "zero-padded", counted, not judged); n given together with '
+               'p2_plus: the requested n is the transform length',
+               'p2_plus integer 0..3 (float or bool p2_plus: counted, not judged)',
+               'every monitored call is judged against a snapshot of the record taken at call entry, never against the '
+               'values after the call or a cached spectrum; max_fa_period is judged against the reported spectrum (tie '
+               '1e-12) AND against the oracle spectrum of the record (slack = the per-bin tolerance)',
+               'bins compared completely for N <= 4096, on 256 deterministic bins above, 64 above N = 32768',
                'round trip through the inverse helper judged for even N only (an odd N has no Nyquist bin); the '
                'function-level post-condition of fas2values/fas2signal is judged for every spectrum',
                'exceptions raised by a mutator inside an object history are counted, not judged (the mutators are C17); '
-               'the read after it is judged against the current values in any case',
+               'what is read or computed after it is judged against the current values in any case',
                'oracle vf/oracles/dft.py is correct (direct sum with integer phase reduction; self-test at start-up)']
 MIN_EVALS = {   # about half of what a normal run reaches
     'quick': {'gen_fa_spectrum.bins==dt*DFT': 2500, 'lazy.bins==dt*DFT': 7000,
@@ -68,7 +90,8 @@ MIN_EVALS = {   # about half of what a normal run reaches
               'fas2signal.type+dt': 500, 'inverse.roundtrip==x_pad-mean-nyquist': 1400,
               'max_fa_period==1/f[argmax|F|]': 1000, 'lazy-after-mutation.bins==dt*DFT(current values)': 250,
               'lazy-after-mutation.nbins==N//2': 250, 'lazy-after-mutation.freqs==k/(N*dt)': 250,
-              'fas2values.argument-unchanged': 1600, 'fas2signal.argument-unchanged': 500},
+              'fas2values.argument-unchanged': 1600, 'fas2signal.argument-unchanged': 500,
+              'argument-unchanged[record]': 20000, 'back-to-back.first-result-intact': 250},
     'thorough': {'gen_fa_spectrum.bins==dt*DFT': 9500, 'lazy.bins==dt*DFT': 27000,
                  'generate_fa_spectrum.bins==dt*DFT': 4500, 'calc_fa_spectrum.bins==dt*DFT': 9000,
                  'gen_fa_spectrum.nbins==N//2': 9500, 'lazy.nbins==N//2': 27000,
@@ -81,7 +104,8 @@ MIN_EVALS = {   # about half of what a normal run reaches
                  'fas2signal.type+dt': 2000, 'inverse.roundtrip==x_pad-mean-nyquist': 5500,
                  'max_fa_period==1/f[argmax|F|]': 4000, 'lazy-after-mutation.bins==dt*DFT(current values)': 1600,
                  'lazy-after-mutation.nbins==N//2': 1600, 'lazy-after-mutation.freqs==k/(N*dt)': 1600,
-                 'fas2values.argument-unchanged': 6000, 'fas2signal.argument-unchanged': 2000}}
+                 'fas2values.argument-unchanged': 6000, 'fas2signal.argument-unchanged': 2000,
+                 'argument-unchanged[record]': 90000, 'back-to-back.first-result-intact': 1000}}
 EXHAUSTIVE = {'quick': 'every record length 2..130 (4 records each) through every entry point; every 2^e-1, 2^e, 2^e+1, e=3..11',
               'thorough': 'every record length 2..130 (12 records each) through every entry point; every 2^e-1, 2^e, 2^e+1, e=3..12'}
 
@@ -103,7 +127,8 @@ def _bins_to_compare(N, M):
         return np.arange(M, dtype=np.int64)
     r = np.random.default_rng([6, N, M])
     fixed = [0, 1, 2, 3, M // 2, M - 2, M - 1]
-    ks = np.unique(np.concatenate([np.array(fixed, dtype=np.int64), r.integers(0, M, size=N_SAMPLED - len(fixed))]))
+    count = N_SAMPLED if N <= 32768 else 64
+    ks = np.unique(np.concatenate([np.array(fixed, dtype=np.int64), r.integers(0, M, size=count - len(fixed))]))
     return ks
 
 
@@ -135,7 +160,7 @@ def _is_int(v):
 
 
 def _record_of(ctx, sig):
-    """(x as float64, dt) when the signal is inside the quantifier, else None (counted)."""
+    """(x as float64 copy, dt, tolerance class) when the signal is inside the quantifier, else None (counted)."""
     try:
         v = np.asarray(sig.values)
         dt = sig.dt
@@ -148,9 +173,10 @@ def _record_of(ctx, sig):
     if v.dtype.kind not in 'fiu':
         ctx.observe('out-of-domain: non-real record dtype (%s)' % v.dtype.kind)
         return None
-    if v.dtype.kind == 'f' and v.dtype.itemsize < 8:
-        ctx.observe('not judged: %s record (numpy transforms it in reduced precision)' % v.dtype)
+    if v.dtype.kind == 'f' and v.dtype.itemsize < 4:
+        ctx.observe('not judged: %s record (half precision)' % v.dtype)
         return None
+    loose = (v.dtype.kind == 'f' and v.dtype.itemsize == 4) or isinstance(dt, np.float32)
     x = v.astype(float)
     if not np.all(np.isfinite(x)):
         ctx.observe('out-of-domain: NaN/inf in record')
@@ -159,17 +185,50 @@ def _record_of(ctx, sig):
             or not np.isfinite(dt) or not dt > 0:
         ctx.observe('out-of-domain: dt not a positive finite number')
         return None
-    return x, float(dt)
+    return x, float(dt), (LOOSE if loose else TIGHT)
 
 
-def _sig_wit(sig, fn, **kw):
-    d = {'fn': fn, 'values': np.asarray(sig.values), 'dt': sig.dt, 'cls': type(sig).__name__}
+def _entry(ctx, sig):
+    """State of a signal argument at CALL ENTRY: the record the result is judged against (never the values after the
+    call, never a derived cache) and a raw copy for the purity clause and the witness."""
+    try:
+        raw = np.array(sig.values)
+    except Exception:
+        raw = None
+    return {'rec': _record_of(ctx, sig), 'raw': raw, 'dt': getattr(sig, 'dt', None), 'cls': type(sig).__name__}
+
+
+def _same_bits(a, b):
+    return a.shape == b.shape and a.dtype == b.dtype and a.tobytes() == b.tobytes()
+
+
+def _check_record_unchanged(ctx, where, wit, sig, st):
+    """Computing or reading a spectrum does not change the record (bit for bit)."""
+    if st['raw'] is None:
+        return
+    try:
+        now = np.asarray(sig.values)
+        same = _same_bits(now, st['raw'])
+    except Exception:
+        same = False
+    _judge(ctx, same, 'argument-unchanged[record]', wit, '%s changed the values of the signal it was given' % where)
+
+
+def _sig_wit(st, fn, **kw):
+    """Witness from the entry state of the signal argument (values as they were when the call was made)."""
+    dt = st['dt']
+    d = {'fn': fn, 'values': st['raw'], 'dt': dt, 'cls': st['cls'],
+         'dt_form': 'np.float32' if isinstance(dt, np.float32) else ('np.float64' if isinstance(dt, np.float64) else
+                                                                     ('int' if _is_int(dt) else None))}
+    for k in ('n', 'p2_plus'):                       # the scalar TYPE of an integer option is part of the case
+        if isinstance(kw.get(k), np.integer):
+            d[k + '_form'] = 'np.' + type(kw[k]).__name__
     d.update(kw)
     return d
 
 
 # ---------------------------------------------------------------------------------------------------- monitors
-def check_spectrum(ctx, where, wit, x, dt, N, fa, fr, bins_label='bins==dt*DFT'):
+def check_spectrum(ctx, where, wit, x, dt, N, fa, fr, bins_label='bins==dt*DFT', T=TIGHT):
     """The post-condition proper: fa, fr as reported for the record x zero-padded to N (N from the statement)."""
     if N < len(x):
         ctx.observe('not judged: n < npts (truncation)')
@@ -191,14 +250,14 @@ def check_spectrum(ctx, where, wit, x, dt, N, fa, fr, bins_label='bins==dt*DFT')
     ref = dt * _oracle_bins(x_pad, ks, 'fwd')
     scale = dt * float(np.sum(np.abs(x)))
     got = fa[ks]
-    okb, idx, err, allowed = tol.worst(got, ref, scale=scale, rtol=RTOL_BIN)
+    okb, idx, err, allowed = tol.worst(got, ref, scale=scale, rtol=T['bin'])
     _judge(ctx, okb, where + '.' + bins_label, wit,
            lambda: '%s: npts=%d N=%d dt=%r: bin %s reported %r, dt*DFT=%r, |diff|=%.3g allowed %.3g'
            % (where, len(x), N, dt, None if idx is None else int(ks[idx[0]]),
               None if idx is None else complex(got[idx]), None if idx is None else complex(ref[idx]), err, allowed))
     # frequency grid
     fref = O.frequencies(N, dt)
-    okf, idx, err, allowed = tol.worst(fr, fref, scale=np.abs(fref), rtol=RTOL_FREQ)
+    okf, idx, err, allowed = tol.worst(fr, fref, scale=np.abs(fref), rtol=T['freq'])
     _judge(ctx, okf, where + '.freqs==k/(N*dt)', wit,
            lambda: '%s: npts=%d N=%d dt=%r: frequency of bin %s reported %r, k/(N*dt)=%r'
            % (where, len(x), N, dt, None if idx is None else idx[0], None if idx is None else float(fr[idx]),
@@ -206,7 +265,7 @@ def check_spectrum(ctx, where, wit, x, dt, N, fa, fr, bins_label='bins==dt*DFT')
     # Parseval on the reported bins + the unreported bin floor(N/2) from the record
     with np.errstate(all='ignore'):
         lhs, rhs = O.parseval_sides(x_pad, dt, fa)
-    okp = bool(np.isfinite(rhs)) and abs(lhs - rhs) <= RTOL_PARSEVAL * lhs
+    okp = bool(np.isfinite(rhs)) and abs(lhs - rhs) <= T['parseval'] * lhs
     _judge(ctx, okp, 'parseval', wit,
            '%s: npts=%d N=%d dt=%r: dt*sum x^2=%r but (|F0|^2+2 sum|Fk|^2+unreported)/(N dt)=%r' % (where, len(x), N, dt, lhs, rhs))
 
@@ -224,102 +283,117 @@ def _expected_n(ctx, npts, p2_plus, n):
     return O.n_padded(npts, p2_plus)
 
 
-def _post_gen(args, kwargs, result, pre):
+def _pre_gen(args, kwargs):
+    return _entry(CTX, args[0])
+
+
+def _post_gen(args, kwargs, result, st):
     self = args[0]
     p2_plus = args[1] if len(args) > 1 else kwargs.get('p2_plus', 0)
     n = args[2] if len(args) > 2 else kwargs.get('n', None)
     _GEN_SEQ[0] += 1
-    rec = _record_of(CTX, self)
+    rec = st['rec']
     if rec is None:
         _LAST.pop(id(self), None)
         return
-    x, dt = rec
+    x, dt, T = rec
     N = _expected_n(CTX, len(x), p2_plus, n)
     if len(_LAST) > 2000:
         for k in [k for k, v in _LAST.items() if v[0]() is None]:
             del _LAST[k]
     _LAST[id(self)] = (weakref.ref(self), p2_plus, n, N, core.digest(np.asarray(self.values)))
+    wit = lambda: _sig_wit(st, 'Signal.gen_fa_spectrum', p2_plus=p2_plus, n=n)
+    _check_record_unchanged(CTX, 'gen_fa_spectrum', wit, self, st)
     if N is None:
         return
     with attach.paused():
         fa = self.fa_spectrum
         fr = self.fa_freqs
-    check_spectrum(CTX, 'gen_fa_spectrum', lambda: _sig_wit(self, 'Signal.gen_fa_spectrum', p2_plus=p2_plus, n=n),
-                   x, dt, N, fa, fr)
+    check_spectrum(CTX, 'gen_fa_spectrum', wit, x, dt, N, fa, fr, T=T)
 
 
 def _pre_lazy(self):
-    """Before the getter runs: (generation counter, have the values changed since the spectrum was last generated?)."""
+    """Before the getter runs: generation counter, have the values changed since the spectrum was last generated,
+    and the entry state of the object."""
+    st = _entry(CTX, self)
     ent = _LAST.get(id(self))
     changed = False
-    if ent is not None and ent[0]() is self:
-        try:
-            changed = core.digest(np.asarray(self.values)) != ent[4]
-        except Exception:
-            changed = False
-    return _GEN_SEQ[0], changed
+    if ent is not None and ent[0]() is self and st['raw'] is not None:
+        changed = core.digest(st['raw']) != ent[4]
+    st['seq0'] = _GEN_SEQ[0]
+    st['changed'] = changed
+    return st
 
 
-def _post_lazy(self, result, state, which):
-    """Lazy properties: the spectrum of the object's CURRENT record. N is the one of the last explicit gen_fa_spectrum
-    on this object; the default N when the read itself had to trigger the generation, when no generation was seen, or
-    when the values have changed since the last generation (every public mutator invalidates the spectrum, so the read
-    must regenerate with the defaults; a stale spectrum is refuted here). Reads of the last kind are reported under
-    their own clause names 'lazy-after-mutation.*'."""
-    seq0, changed = state
-    triggered = _GEN_SEQ[0] != seq0
-    rec = _record_of(CTX, self)
-    if rec is None:
-        return
-    x, dt = rec
+def _expected_lazy_n(self, npts, triggered, changed):
+    """N a lazy read must show, and the explicit options it stems from (None = defaults)."""
     ent = _LAST.get(id(self))
     if not triggered and not changed and ent is not None and ent[0]() is self:
-        p2_plus, n, N = ent[1], ent[2], ent[3]
-        prior = {'p2_plus': p2_plus, 'n': n}
-    else:
-        N, prior = O.n_padded(len(x)), None
+        return ent[3], {'p2_plus': ent[1], 'n': ent[2]}
+    return O.n_padded(npts), None
+
+
+def _post_lazy(self, result, st, which):
+    """Lazy properties: the spectrum of the object's CURRENT record (as it was when the read started). N is the one of
+    the last explicit gen_fa_spectrum on this object; the default N when the read itself had to trigger the generation,
+    when no generation was seen, or when the values have changed since the last generation (every public mutator
+    invalidates the spectrum, so the read must regenerate with the defaults; a stale spectrum is refuted here). Reads
+    of the last kind are reported under their own clause names 'lazy-after-mutation.*'."""
+    changed = st['changed']
+    triggered = _GEN_SEQ[0] != st['seq0']
+    rec = st['rec']
+    if rec is None:
+        return
+    x, dt, T = rec
+    N, prior = _expected_lazy_n(self, len(x), triggered, changed)
+    hist = _HISTORY[0]
+    wit = (lambda: dict(hist, fn='rel.history')) if hist is not None else \
+        (lambda: _sig_wit(st, 'Signal.' + which, prior_gen=prior))
+    _check_record_unchanged(CTX, 'reading ' + which, wit, self, st)
     if N is None:
         return
     with attach.paused():
         fa = result if which == 'fa_spectrum' else self.fa_spectrum
         fr = result if which == 'fa_freqs' else self.fa_freqs
-    hist = _HISTORY[0]
-    wit = (lambda: dict(hist, fn='rel.history')) if hist is not None else \
-        (lambda: _sig_wit(self, 'Signal.' + which, prior_gen=prior))
     if changed:
-        check_spectrum(CTX, 'lazy-after-mutation', wit, x, dt, N, fa, fr, bins_label='bins==dt*DFT(current values)')
+        check_spectrum(CTX, 'lazy-after-mutation', wit, x, dt, N, fa, fr, bins_label='bins==dt*DFT(current values)', T=T)
     else:
-        check_spectrum(CTX, 'lazy', wit, x, dt, N, fa, fr)
+        check_spectrum(CTX, 'lazy', wit, x, dt, N, fa, fr, T=T)
 
 
-def _post_generate(args, kwargs, result, pre):
+def _pre_sig0(args, kwargs):
+    """Entry state of the first positional / 'sig' / 'asig' argument."""
+    sig = args[0] if args else kwargs.get('sig', kwargs.get('asig'))
+    return _entry(CTX, sig)
+
+
+def _post_generate(args, kwargs, result, st):
     sig = args[0] if args else kwargs['sig']
     n_pad = args[1] if len(args) > 1 else kwargs.get('n_pad', True)
-    rec = _record_of(CTX, sig)
+    rec = st['rec']
     if rec is None:
         return
-    x, dt = rec
+    x, dt, T = rec
     N = O.n_padded(len(x)) if n_pad else len(x)
+    _check_record_unchanged(CTX, 'generate_fa_spectrum', lambda: _sig_wit(st, 'generate_fa_spectrum', n_pad=n_pad), sig, st)
     ok_pair = isinstance(result, tuple) and len(result) == 2
     if not ok_pair:
-        CTX.violation('generate_fa_spectrum.nbins==N//2', _sig_wit(sig, 'generate_fa_spectrum', n_pad=n_pad),
+        CTX.violation('generate_fa_spectrum.nbins==N//2', _sig_wit(st, 'generate_fa_spectrum', n_pad=n_pad),
                       'generate_fa_spectrum did not return (spectrum, frequencies): %r' % (type(result),))
         return
-    check_spectrum(CTX, 'generate_fa_spectrum', lambda: _sig_wit(sig, 'generate_fa_spectrum', n_pad=n_pad),
-                   x, dt, N, result[0], result[1])
+    check_spectrum(CTX, 'generate_fa_spectrum', lambda: _sig_wit(st, 'generate_fa_spectrum', n_pad=n_pad),
+                   x, dt, N, result[0], result[1], T=T)
 
 
-def _post_calc(args, kwargs, result, pre):
+def _post_calc(args, kwargs, result, st):
     sig = args[0] if args else kwargs['sig']
     n = args[1] if len(args) > 1 else kwargs.get('n', None)
     p2_plus = args[2] if len(args) > 2 else kwargs.get('p2_plus', None)
-    rec = _record_of(CTX, sig)
+    rec = st['rec']
     if rec is None:
         return
-    x, dt = rec
-    if n is not None and p2_plus is not None:
-        CTX.observe('not judged: calc_fa_spectrum with both n and p2_plus')
-        return
+    x, dt, T = rec
+    _check_record_unchanged(CTX, 'calc_fa_spectrum', lambda: _sig_wit(st, 'calc_fa_spectrum', n=n, p2_plus=p2_plus), sig, st)
     if n is None and p2_plus is None:
         N = len(x)                       # the array-level function without padding
     else:
@@ -327,11 +401,11 @@ def _post_calc(args, kwargs, result, pre):
         if N is None:
             return
     if not (isinstance(result, tuple) and len(result) == 2):
-        CTX.violation('calc_fa_spectrum.nbins==N//2', _sig_wit(sig, 'calc_fa_spectrum', n=n, p2_plus=p2_plus),
+        CTX.violation('calc_fa_spectrum.nbins==N//2', _sig_wit(st, 'calc_fa_spectrum', n=n, p2_plus=p2_plus),
                       'calc_fa_spectrum did not return (spectrum, frequencies): %r' % (type(result),))
         return
-    check_spectrum(CTX, 'calc_fa_spectrum', lambda: _sig_wit(sig, 'calc_fa_spectrum', n=n, p2_plus=p2_plus),
-                   x, dt, N, result[0], result[1])
+    check_spectrum(CTX, 'calc_fa_spectrum', lambda: _sig_wit(st, 'calc_fa_spectrum', n=n, p2_plus=p2_plus),
+                   x, dt, N, result[0], result[1], T=T)
 
 
 def check_inverse(ctx, where, wit, fas, dt, s):
@@ -376,7 +450,7 @@ def _pre_inverse(args, kwargs):
     fas = args[0] if args else kwargs.get('fas')
     if isinstance(fas, np.ndarray):
         return fas.copy()
-    if isinstance(fas, list):
+    if isinstance(fas, (list, tuple)):
         return list(fas)
     return None
 
@@ -428,16 +502,19 @@ def _post_fas2signal(args, kwargs, result, pre):
         check_inverse(CTX, 'fas2signal', wit, given, dt, result.values)
 
 
-def _post_max_fa_period(args, kwargs, result, pre):
+def _post_max_fa_period(args, kwargs, result, st):
     asig = args[0] if args else kwargs['asig']
-    if _record_of(CTX, asig) is None:
+    if st['rec'] is None:
         return
+    x, dt, T = st['rec']
     with attach.paused():
         fa = np.asarray(asig.fa_spectrum)
         fr = np.asarray(asig.fa_freqs, dtype=float)
     ent = _LAST.get(id(asig))
     prior = {'p2_plus': ent[1], 'n': ent[2]} if ent is not None and ent[0]() is asig and (ent[1], ent[2]) != (0, None) else None
-    wit = lambda: _sig_wit(asig, 'max_fa_period', prior_gen=prior)
+    hist = _HISTORY[0]
+    wit = (lambda: dict(hist, fn='rel.history')) if hist is not None else (lambda: _sig_wit(st, 'max_fa_period', prior_gen=prior))
+    _check_record_unchanged(CTX, 'max_fa_period', wit, asig, st)
     amp = np.abs(fa)
     top = float(np.max(amp)) if amp.size else 0.0
     with np.errstate(divide='ignore'):
@@ -451,6 +528,15 @@ def _post_max_fa_period(args, kwargs, result, pre):
     else:
         cand = np.flatnonzero(np.isfinite(periods) & (np.abs(periods - r) <= RTOL_TIE * np.abs(periods)))
     okk = cand.size > 0 and bool(np.any(amp[cand] >= top * (1.0 - RTOL_TIE)))
+    # independent of the object's cached spectrum: in the ORACLE spectrum of the record (as it was at call entry, N from
+    # the monitor's own bookkeeping) the reported bin reaches the maximum, up to the per-bin tolerance of the spectrum
+    ent = _LAST.get(id(asig))
+    changed = ent is not None and ent[0]() is asig and core.digest(st['raw']) != ent[4]
+    Nexp, _ = _expected_lazy_n(asig, len(x), False, changed)
+    if okk and Nexp is not None and len(x) <= Nexp <= FULL_N and len(fr) == Nexp // 2:
+        oamp = np.abs(dt * _oracle_bins(O.zero_pad(x, Nexp), np.arange(Nexp // 2, dtype=np.int64), 'fwd'))
+        slack = 2.0 * T['bin'] * dt * float(np.sum(np.abs(x)))
+        okk = bool(np.any(oamp[cand] >= float(np.max(oamp)) * (1.0 - RTOL_TIE) - slack))
     _judge(CTX, okk, 'max_fa_period==1/f[argmax|F|]', wit,
            lambda: 'max_fa_period -> %r; %s; largest amplitude %.6g is at bin %d (period %r)'
            % (result, ('that is bin %d with amplitude %.6g' % (int(cand[0]), float(amp[cand[0]]))) if cand.size
@@ -465,15 +551,147 @@ def install(ctx):
     fq = eqsig.fns.frequency
     if getattr(install, 'done', False):
         return
-    attach.wrap_method(eqsig.Signal, 'gen_fa_spectrum', _post_gen)
+    attach.wrap_method(eqsig.Signal, 'gen_fa_spectrum', _post_gen, pre=_pre_gen)
     attach.wrap_property(eqsig.Signal, 'fa_spectrum', lambda o, v, st: _post_lazy(o, v, st, 'fa_spectrum'), pre=_pre_lazy)
     attach.wrap_property(eqsig.Signal, 'fa_freqs', lambda o, v, st: _post_lazy(o, v, st, 'fa_freqs'), pre=_pre_lazy)
-    attach.wrap(fq, 'generate_fa_spectrum', _post_generate)
-    attach.wrap(fq, 'calc_fa_spectrum', _post_calc)
+    attach.wrap(fq, 'generate_fa_spectrum', _post_generate, pre=_pre_sig0)
+    attach.wrap(fq, 'calc_fa_spectrum', _post_calc, pre=_pre_sig0)
     attach.wrap(fq, 'fas2values', _post_fas2values, pre=_pre_inverse)
     attach.wrap(fq, 'fas2signal', _post_fas2signal, pre=_pre_inverse)
-    attach.wrap(eqsig.im, 'max_fa_period', _post_max_fa_period)
+    attach.wrap(eqsig.im, 'max_fa_period', _post_max_fa_period, pre=_pre_sig0)
     install.done = True
+
+
+# ---------------------------------------------------------------------------------------------------- input forms
+def _tclass(values, dt):
+    """Tolerance class of a case for the driver-side relations (same rule as the monitors)."""
+    v = np.asarray(values)
+    return LOOSE if (v.dtype == np.float32 or isinstance(dt, np.float32)) else TIGHT
+
+
+def _as_form(values, form):
+    """The record in the memory form named by `form` (views and flags cannot be stored in a JSON witness)."""
+    if form == 'strided':
+        v = np.asarray(values)
+        buf = np.zeros(2 * len(v), dtype=v.dtype)
+        buf[::2] = v
+        return buf[::2]
+    if form == 'reversed':
+        base = np.ascontiguousarray(np.asarray(values)[::-1])
+        return base[::-1]
+    if form == 'readonly':
+        v = np.array(values)
+        v.flags.writeable = False
+        return v
+    return values
+
+
+def _dt_as(dt, form):
+    return {'np.float64': np.float64, 'np.float32': np.float32, 'int': int}.get(form, float)(dt)
+
+
+def _int_as(v, form):
+    return {'np.int64': np.int64, 'np.int32': np.int32}.get(form, int)(v)
+
+
+def _snapshot(obj):
+    return obj.copy() if isinstance(obj, np.ndarray) else (tuple(obj) if isinstance(obj, (list, tuple)) else None)
+
+
+def _unchanged(obj, snap):
+    if snap is None:
+        return True
+    if isinstance(obj, np.ndarray):
+        return _same_bits(obj, snap)
+    return len(obj) == len(snap) and all(type(u) is type(v) and u == v for u, v in zip(obj, snap))
+
+
+NARROW = [('int32', -2 ** 31, 2 ** 31 - 1), ('int16', -2 ** 15, 2 ** 15 - 1), ('int8', -128, 127), ('uint8', 0, 255),
+          ('uint16', 0, 2 ** 16 - 1)]
+
+
+def _draw_input(rng, npts, allow_f32=True):
+    """(values container, memory form, record class, container name): the dtype / container / view forms of a record."""
+    x, rcls = gen.record(rng, npts)
+    r = rng.random()
+    # scales beyond vf/gen.py: micro and huge amplitudes, a large offset on a small signal
+    if r < 0.08:
+        x = x / max(float(np.max(np.abs(x))), 1e-300) * 10.0 ** float(rng.choice([-12, -10, -9]))
+        rcls += '*micro'
+    elif r < 0.16:
+        x = x / max(float(np.max(np.abs(x))), 1e-300) * 10.0 ** float(rng.choice([9, 10, 12]))
+        rcls += '*huge'
+    elif r < 0.20:
+        x = x / max(float(np.max(np.abs(x))), 1e-300) * 1e-3 + float(rng.choice([-1e6, 1e6]))
+        rcls += '+offset1e6'
+    r = rng.random()
+    if r < 0.06:                                       # the extreme at the first / last sample
+        x = x.copy()
+        x[0 if rng.random() < 0.5 else -1] = float(rng.choice([-3.0, 3.0])) * max(float(np.max(np.abs(x))), 1e-300)
+        rcls += '/peak-at-end'
+    elif r < 0.10 and npts >= 6:                       # plateaus at both ends
+        x = x.copy()
+        k = int(rng.integers(1, npts // 3 + 1))
+        x[:k] = x[k]
+        x[-k:] = x[-k - 1]
+        rcls += '/flat-ends'
+    intval = bool(np.all(x == np.round(x)) and np.max(np.abs(x)) < 2 ** 52)
+    k = rng.random()
+    form = None
+    if k < 0.40:
+        xin, cont = x, 'f64'
+    elif k < 0.48 and intval:
+        xin, cont = x.astype(np.int64), 'i64'
+    elif k < 0.56:
+        name, lo, hi = NARROW[int(rng.integers(len(NARROW)))]     # integers using most of the dtype's range
+        span = hi - lo
+        v = rng.integers(lo, hi + 1, size=npts, dtype=np.int64)
+        if rng.random() < 0.5:                                    # pile up at the ends of the range
+            v = np.where(rng.random(npts) < 0.5, hi - rng.integers(0, span // 16 + 1, size=npts),
+                         lo + rng.integers(0, span // 16 + 1, size=npts))
+        xin, cont, rcls = v.astype(name), name, 'narrow-int'
+    elif k < 0.62 and allow_f32:
+        xin, cont = x.astype(np.float32), 'f32'
+        if not np.all(np.isfinite(xin)):
+            xin, cont = x, 'f64'
+    elif k < 0.68:
+        xin, cont = [float(v) for v in x], 'list-float'
+    elif k < 0.72:
+        xin, cont = tuple(float(v) for v in x), 'tuple-float'
+    elif k < 0.76:
+        v = rng.integers(-1000, 1000, size=npts)
+        xin, cont, rcls = [int(t) for t in v], 'list-int', 'intnoise'
+    elif k < 0.80:
+        v = rng.integers(-9, 10, size=npts)
+        xin = [int(t) if i % 2 else float(t) + 0.5 for i, t in enumerate(v)]
+        cont, rcls = 'list-mixed', 'mixed'
+    elif k < 0.86:
+        xin, cont, form = x, 'f64-strided-view', 'strided'
+    elif k < 0.92:
+        xin, cont, form = x, 'f64-reversed-view', 'reversed'
+    else:
+        xin, cont, form = x, 'f64-readonly', 'readonly'
+    return xin, form, rcls, cont
+
+
+def _draw_dt(rng):
+    """(dt, form): vf/gen.py classes plus the decades 1e-9 .. 1e3 and the scalar types a caller may hold."""
+    r = rng.random()
+    if r < 0.12:
+        return float(10.0 ** rng.uniform(-9, -3)), None
+    if r < 0.20:
+        return float(10.0 ** rng.uniform(0, 3)), None
+    if r < 0.24:
+        return float(rng.choice([1e-9, 1e-6, 1.0, 10.0, 1e3])), None
+    if r < 0.28:
+        return int(rng.choice([1, 2, 5])), 'int'
+    dt = gen.dt(rng)
+    r = rng.random()
+    if r < 0.08:
+        return float(np.float32(dt)), 'np.float32'
+    if r < 0.16:
+        return dt, 'np.float64'
+    return dt, None
 
 
 # ---------------------------------------------------------------------------------------------------- relations
@@ -481,19 +699,60 @@ def _mk(eqsig, clsname, x, dt):
     return (eqsig.AccSignal if clsname == 'AccSignal' else eqsig.Signal)(x, dt)
 
 
-def _agree(ctx, wit, x, dt, a, b, what):
+def _agree(ctx, wit, x, dt, a, b, what, T=TIGHT):
     """object-level result a = (fa, fr) and array-level result b agree."""
     scale = dt * float(np.sum(np.abs(np.asarray(x, dtype=float))))
     ok = np.shape(a[0]) == np.shape(b[0]) and np.shape(a[1]) == np.shape(b[1])
     msg = 'shapes %s/%s vs %s/%s' % (np.shape(a[0]), np.shape(a[1]), np.shape(b[0]), np.shape(b[1]))
     if ok:
-        ok1 = tol.close(a[0], b[0], scale=scale, rtol=RTOL_BIN)
-        ok2 = tol.close(a[1], b[1], scale=np.abs(np.asarray(b[1], dtype=float)), rtol=RTOL_FREQ)
+        fsc = np.abs(np.asarray(b[1], dtype=float))
+        ok1 = tol.close(a[0], b[0], scale=scale, rtol=T['bin'])
+        ok2 = tol.close(a[1], b[1], scale=fsc, rtol=T['freq'])
         ok = ok1 and ok2
         if not ok:
-            msg = ('spectrum ' + tol.describe(a[0], b[0], scale=scale, rtol=RTOL_BIN)) if not ok1 else \
-                ('frequencies ' + tol.describe(a[1], b[1], scale=np.abs(np.asarray(b[1], dtype=float)), rtol=RTOL_FREQ))
+            msg = ('spectrum ' + tol.describe(a[0], b[0], scale=scale, rtol=T['bin'])) if not ok1 else \
+                ('frequencies ' + tol.describe(a[1], b[1], scale=fsc, rtol=T['freq']))
     _judge(ctx, ok, 'object==array', wit, 'object-level vs array-level (%s): %s' % (what, msg))
+
+
+def _gen(s, style, p2=None, n=None):
+    """Signal.gen_fa_spectrum with the options passed by keyword or positionally."""
+    if style == 'pos':
+        if n is None:
+            s.gen_fa_spectrum(p2) if p2 is not None else s.gen_fa_spectrum()
+        else:
+            s.gen_fa_spectrum(0 if p2 is None else p2, n)
+    elif n is None:
+        s.gen_fa_spectrum(p2_plus=p2) if p2 is not None else s.gen_fa_spectrum()
+    elif p2 is None:
+        s.gen_fa_spectrum(n=n)
+    else:
+        s.gen_fa_spectrum(p2_plus=p2, n=n)
+
+
+def _calc(eqsig, s, style, n=None, p2=None):
+    if style == 'pos':
+        if n is None and p2 is None:
+            return eqsig.calc_fa_spectrum(s)
+        return eqsig.calc_fa_spectrum(s, n) if p2 is None else eqsig.calc_fa_spectrum(s, n, p2)
+    kw = {}
+    if n is not None:
+        kw['n'] = n
+    if p2 is not None:
+        kw['p2_plus'] = p2
+    return eqsig.calc_fa_spectrum(sig=s, **kw) if style == 'kw-all' else eqsig.calc_fa_spectrum(s, **kw)
+
+
+def _generate(eqsig, s, style, n_pad=None):
+    if n_pad is None:
+        return eqsig.generate_fa_spectrum(sig=s) if style == 'kw-all' else eqsig.generate_fa_spectrum(s)
+    if style == 'pos':
+        return eqsig.generate_fa_spectrum(s, n_pad)
+    return eqsig.generate_fa_spectrum(sig=s, n_pad=n_pad) if style == 'kw-all' else eqsig.generate_fa_spectrum(s, n_pad=n_pad)
+
+
+def _period(eqsig, s, style):
+    return eqsig.im.max_fa_period(asig=s) if style == 'kw-all' else eqsig.im.max_fa_period(s)
 
 
 def _spectrum(eqsig, s, mode):
@@ -519,12 +778,20 @@ def _spectrum_obj(s, mode):
 
 
 def rel_agreement(ctx, eqsig, p):
-    """Every entry point on one record; object vs array level; inverse round trips; dominant period."""
-    x, dt, clsname, p2, ne, stype = p['values'], p['dt'], p['cls'], p['p2_plus'], p['n'], p.get('stype', 'signal')
+    """Every entry point on one record; object vs array level; inverse round trips; dominant period. The record, dt and
+    the integer options go in in the container / dtype / memory form and call style named by the case."""
+    x = _as_form(p['values'], p.get('form'))
+    dt_in = _dt_as(p['dt'], p.get('dt_form'))
+    dt = float(dt_in)
+    T = _tclass(x, dt_in)
+    style = p.get('style', 'kw')
+    clsname, stype = p['cls'], p.get('stype', 'signal')
+    p2, ne = _int_as(p['p2_plus'], p.get('int_form')), _int_as(p['n'], p.get('int_form'))
     xf = np.asarray(x, dtype=float)
     npts = len(xf)
+    snap = _snapshot(x)
     wit = lambda: dict(p, fn='rel.agreement')
-    s = _mk(eqsig, clsname, x, dt)
+    s = _mk(eqsig, clsname, x, dt_in)
     # default padding: lazy object, both array-level functions
     first = p.get('first', 'fa_spectrum')
     if first == 'method':
@@ -535,42 +802,81 @@ def rel_agreement(ctx, eqsig, p):
     else:                                  # the frequency property is the access that triggers the generation
         fr = getattr(s, first)
         obj = (s.fa_spectrum, fr)
-    eqsig.im.max_fa_period(s)
-    _agree(ctx, wit, xf, dt, obj, eqsig.generate_fa_spectrum(s), 'default vs generate_fa_spectrum')
-    _agree(ctx, wit, xf, dt, obj, eqsig.calc_fa_spectrum(s, p2_plus=0), 'default vs calc_fa_spectrum(p2_plus=0)')
-    _roundtrip(ctx, eqsig, xf, dt, O.n_padded(npts), obj[0], wit, 'default', stype if p.get('signal_on') == 'default' else None)
-    # p2_plus
-    s.gen_fa_spectrum(p2_plus=p2)
-    obj = (s.fa_spectrum, s.fa_freqs)
-    _agree(ctx, wit, xf, dt, obj, eqsig.calc_fa_spectrum(s, p2_plus=p2), 'p2_plus=%d' % p2)
-    eqsig.im.max_fa_period(s)
-    # explicit n
-    s.gen_fa_spectrum(n=ne)
-    obj = (s.fa_spectrum, s.fa_freqs)
-    arr = eqsig.calc_fa_spectrum(s, n=ne)
-    _agree(ctx, wit, xf, dt, obj, arr, 'n=%d' % ne)
-    _roundtrip(ctx, eqsig, xf, dt, ne, arr[0], wit, 'n=%d' % ne, stype if p.get('signal_on') == 'n' else None)
+    _period(eqsig, s, style)
+    _agree(ctx, wit, xf, dt, obj, _generate(eqsig, s, style, None if style != 'pos' else True), 'default vs generate_fa_spectrum', T)
+    _agree(ctx, wit, xf, dt, obj, _calc(eqsig, s, style, p2=_int_as(0, p.get('int_form'))), 'default vs calc_fa_spectrum(p2_plus=0)', T)
+    _roundtrip(ctx, eqsig, xf, dt_in, O.n_padded(npts), obj[0], wit, 'default', stype if p.get('signal_on') == 'default' else None,
+               T, style, p.get('fas_form'))
+    if not p.get('lite'):
+        # p2_plus
+        _gen(s, style, p2=p2)
+        obj = (s.fa_spectrum, s.fa_freqs)
+        _agree(ctx, wit, xf, dt, obj, _calc(eqsig, s, style, p2=p2), 'p2_plus=%d' % p2, T)
+        _period(eqsig, s, style)
+        # explicit n
+        _gen(s, style, n=ne)
+        obj = (s.fa_spectrum, s.fa_freqs)
+        arr = _calc(eqsig, s, style, n=ne)
+        _agree(ctx, wit, xf, dt, obj, arr, 'n=%d' % ne, T)
+        _roundtrip(ctx, eqsig, xf, dt_in, int(ne), arr[0], wit, 'n=%d' % ne, stype if p.get('signal_on') == 'n' else None,
+                   T, style, p.get('fas_form'))
+        if p.get('both'):                  # a requested n together with p2_plus: the requested n is the transform length
+            _gen(s, style, p2=p2, n=ne)
+            obj = (s.fa_spectrum, s.fa_freqs)
+            _agree(ctx, wit, xf, dt, obj, _calc(eqsig, s, style, n=ne, p2=p2), 'n=%d with p2_plus=%d' % (ne, p2), T)
     # unpadded
-    g = eqsig.generate_fa_spectrum(s, n_pad=False)
-    c = eqsig.calc_fa_spectrum(s)
-    s2 = _mk(eqsig, clsname, x, dt)
-    s2.gen_fa_spectrum(n=npts)
+    g = _generate(eqsig, s, style, False)
+    c = _calc(eqsig, s, style)
+    s2 = _mk(eqsig, clsname, x, dt_in)
+    _gen(s2, style, n=_int_as(npts, p.get('int_form')))
     obj = (s2.fa_spectrum, s2.fa_freqs)
-    _agree(ctx, wit, xf, dt, obj, g, 'n=npts vs generate_fa_spectrum(n_pad=False)')
-    _agree(ctx, wit, xf, dt, obj, c, 'n=npts vs calc_fa_spectrum()')
-    _roundtrip(ctx, eqsig, xf, dt, npts, c[0], wit, 'unpadded', stype if p.get('signal_on') == 'nopad' else None)
+    _agree(ctx, wit, xf, dt, obj, g, 'n=npts vs generate_fa_spectrum(n_pad=False)', T)
+    _agree(ctx, wit, xf, dt, obj, c, 'n=npts vs calc_fa_spectrum()', T)
+    _roundtrip(ctx, eqsig, xf, dt_in, npts, c[0], wit, 'unpadded', stype if p.get('signal_on') == 'nopad' else None,
+               T, style, p.get('fas_form'))
+    # the caller's record container is what it was before the first call
+    _judge(ctx, _unchanged(x, snap), 'argument-unchanged[record]', wit,
+           'the container the signals were built from changed during the calls (%s)' % type(x).__name__)
 
 
-def _roundtrip(ctx, eqsig, xf, dt, N, fa, wit, what, stype):
-    """record -> (real) spectrum -> inverse helper == padded record minus mean and Nyquist component (even N)."""
+def _fas_as(fa, form):
+    """The spectrum handed to the inverse helper in another container / dtype / memory form (same numbers, except
+    complex64 which rounds them: the helper is then judged against the rounded bins it was given)."""
+    if form == 'list':
+        return [complex(v) for v in fa]
+    if form == 'tuple':
+        return tuple(complex(v) for v in fa)
+    if form == 'readonly':
+        v = np.array(fa)
+        v.flags.writeable = False
+        return v
+    if form == 'strided':
+        buf = np.zeros(2 * len(fa), dtype=complex)
+        buf[::2] = fa
+        return buf[::2]
+    if form == 'c64':
+        return np.asarray(fa).astype(np.complex64)
+    return fa
+
+
+def _roundtrip(ctx, eqsig, xf, dt, N, fa, wit, what, stype, T=TIGHT, style='kw', fas_form=None):
+    """record -> (real) spectrum -> inverse helper == padded record minus mean and Nyquist component (even N). The SAME
+    spectrum object goes to two or three consecutive calls; every result is judged against the record, i.e. against
+    what the spectrum was before the first of them."""
     if N < len(xf):
         return
-    fa = np.asarray(fa)
-    if fa.shape != (N // 2,):
+    if np.shape(fa) != (N // 2,):
         return                     # already reported by the nbins clause
-    outs = [('fas2values', eqsig.fas2values(fa, dt))]
+    given = _fas_as(fa, fas_form)
+    if fas_form == 'c64':
+        T = LOOSE
+    kw = style == 'kw-all'
+    outs = [('fas2values', eqsig.fas2values(fas=given, dt=dt) if kw else eqsig.fas2values(given, dt))]
     if stype is not None:
-        outs.append(('fas2signal', eqsig.fas2signal(fa, dt, stype=stype).values))
+        sg = eqsig.fas2signal(given, dt, stype) if style == 'pos' else \
+            (eqsig.fas2signal(fas=given, dt=dt, stype=stype) if kw else eqsig.fas2signal(given, dt, stype=stype))
+        outs.append(('fas2signal', sg.values))
+        outs.append(('fas2values (same spectrum object again)', eqsig.fas2values(given, dt)))
     if N % 2:
         ctx.observe('not judged: round trip through the inverse helper for odd N')
         return
@@ -578,10 +884,10 @@ def _roundtrip(ctx, eqsig, xf, dt, N, fa, wit, what, stype):
     scale = float(np.max(np.abs(xf)))
     for name, v in outs:
         v = np.asarray(v)
-        ok = v.shape == ref.shape and tol.close(v, ref, scale=scale, rtol=RTOL_INV)
+        ok = v.shape == ref.shape and tol.close(v, ref, scale=scale, rtol=T['inv'])
         _judge(ctx, ok, 'inverse.roundtrip==x_pad-mean-nyquist', wit,
                lambda: '%s(%s spectrum, N=%d, npts=%d): %s' % (name, what, N, len(xf),
-                                                            tol.describe(v, ref, scale=scale, rtol=RTOL_INV)))
+                                                            tol.describe(v, ref, scale=scale, rtol=T['inv'])))
 
 
 def rel_linearity(ctx, eqsig, p):
@@ -618,10 +924,43 @@ def rel_trailing_zeros(ctx, eqsig, p):
            % (nz, len(x), mode, np.shape(f0), np.shape(f1)))
 
 
+def rel_back_to_back(ctx, eqsig, p):
+    """Two different records of the same shape processed back to back while the first results are still held: the held
+    arrays (each judged by its monitor when it was produced) are bit-for-bit what they were after the second call."""
+    x1, x2, dt, mode, clsname = np.asarray(p['x1'], dtype=float), np.asarray(p['x2'], dtype=float), p['dt'], tuple(p['mode']), p['cls']
+    wit = lambda: dict(p, fn='rel.back_to_back')
+    s1, s2 = _mk(eqsig, clsname, x1, dt), _mk(eqsig, clsname, x2, dt)
+    held = []
+    a1 = _spectrum(eqsig, s1, mode)
+    held += [('array-level spectrum', a1[0]), ('array-level frequencies', a1[1])]
+    o1 = _spectrum_obj(s1, mode)
+    held += [('object spectrum', o1[0]), ('object frequencies', o1[1])]
+    v1 = eqsig.fas2values(a1[0], dt)
+    g1 = eqsig.fas2signal(a1[0], dt, stype=p.get('stype', 'signal'))
+    held += [('fas2values result', v1), ('fas2signal values', g1.values)]
+    m1 = eqsig.im.max_fa_period(s1)
+    snaps = [np.array(h[1]) for h in held]
+    # the second record through the same paths
+    a2 = _spectrum(eqsig, s2, mode)
+    _spectrum_obj(s2, mode)
+    eqsig.fas2values(a2[0], dt)
+    eqsig.fas2signal(a2[0], dt, stype=p.get('stype', 'signal'))
+    eqsig.im.max_fa_period(s2)
+    bad = [h[0] for h, sn in zip(held, snaps) if not _same_bits(np.asarray(h[1]), sn)]
+    _judge(ctx, not bad, 'back-to-back.first-result-intact', wit,
+           'results held from the first record changed when a second record of the same shape was processed: %s' % bad)
+    # and the first object still answers for its own record (re-read under the lazy monitor, re-asked for the period)
+    s1.fa_spectrum
+    s1.fa_freqs
+    m1b = eqsig.im.max_fa_period(s1)
+    _judge(ctx, m1 == m1b or (m1 != m1 and m1b != m1b), 'back-to-back.first-result-intact', wit,
+           'max_fa_period of the first object changed from %r to %r after the second record was processed' % (m1, m1b))
+
+
 # ---------------------------------------------------------------------------------------------------- object histories
 SIGNAL_MUTATORS = ['reset_values/same', 'reset_values/shorter', 'reset_values/longer', 'add_constant', 'add_series',
-                   'add_signal', 'butter_pass/band', 'butter_pass/low', 'butter_pass/high', 'remove_average', 'remove_poly',
-                   'running_average']
+                   'add_signal', 'add_series/own-values', 'add_signal/self', 'butter_pass/band', 'butter_pass/low',
+                   'butter_pass/high', 'remove_average', 'remove_poly', 'running_average']
 ACC_MUTATORS = ['remove_rolling_average/velocity', 'remove_rolling_average/acceleration', 'rebase_displacement',
                 'set_zero_residual_velocity/None', 'set_zero_residual_velocity/t0,t1', 'set_zero_residual_velocity/t0,None',
                 'set_zero_residual_displacement', 'set_zero_residual_displacement_and_velocity/None',
@@ -638,7 +977,9 @@ def _draw_mutator(rng, kind, npts, dt):
     """One JSON-able mutator call [method, args...] of the given kind for an object holding npts samples."""
     name, _, var = kind.partition('/')
     if name == 'inverse':
-        return ['fas2values'] if var == 'fas2values' else ['fas2signal', var.split('-')[1]]
+        return ['fas2values', int(rng.integers(1, 3))] if var == 'fas2values' else ['fas2signal', var.split('-')[1]]
+    if var in ('own-values', 'self'):
+        return [name, var]
     if name == 'reset_values':
         if var == 'same':
             m = npts
@@ -649,7 +990,8 @@ def _draw_mutator(rng, kind, npts, dt):
         v = gen.record(rng, m)[0]
         return [name, [float(t) for t in v] if rng.random() < 0.2 else v]
     if name == 'add_constant':
-        return [name, float(rng.choice([-1.0, 1.0]) * 10.0 ** rng.uniform(-2, 1))]
+        c = float(rng.choice([-1.0, 1.0]) * 10.0 ** rng.uniform(-2, 1))
+        return [name, int(round(c)) or 1] if rng.random() < 0.2 else [name, c]
     if name in ('add_series', 'add_signal'):
         return [name, gen.record(rng, npts)[0]]
     if name == 'butter_pass':
@@ -661,7 +1003,7 @@ def _draw_mutator(rng, kind, npts, dt):
             kw['remove_gibbs'] = ['start', 'end', 'mid'][int(rng.integers(3))]
         if rng.random() < 0.3:
             kw['filter_order'] = int(rng.integers(2, 5))
-        return [name, cut, kw]
+        return [name, cut, kw, 'array' if var == 'band' and rng.random() < 0.5 else ('list' if rng.random() < 0.5 else 'tuple')]
     if name == 'remove_average':
         return [name, -1 if rng.random() < 0.6 else int(rng.integers(1, npts))]
     if name == 'remove_poly':
@@ -683,22 +1025,32 @@ def _draw_mutator(rng, kind, npts, dt):
     return [name]          # rebase_displacement, set_zero_residual_displacement, correct_me
 
 
-def _apply_mutator(eqsig, s, m):
+def _apply_mutator(eqsig, s, m, held):
+    """Apply one step to s. Array arguments handed in are appended to held as (label, object, snapshot)."""
     name = m[0]
+
+    def hold(label, obj):
+        if isinstance(obj, (np.ndarray, list, tuple)):
+            held.append((label, obj, _snapshot(obj)))
+        return obj
+
     if name == 'fas2values':                  # interaction: the very array the property returns goes to the helper
-        eqsig.fas2values(s.fa_spectrum, s.dt)
+        for _ in range(int(m[1]) if len(m) > 1 else 1):
+            eqsig.fas2values(s.fa_spectrum, s.dt)
     elif name == 'fas2signal':
         eqsig.fas2signal(s.fa_spectrum, s.dt, stype=m[1])
     elif name == 'reset_values':
-        s.reset_values(m[1])
+        s.reset_values(hold('reset_values argument', m[1]))
     elif name == 'add_constant':
         s.add_constant(m[1])
     elif name == 'add_series':
-        s.add_series(m[1])
+        s.add_series(s.values if isinstance(m[1], str) else hold('add_series argument', m[1]))
     elif name == 'add_signal':
-        s.add_signal(type(s)(m[1], s.dt))
+        s.add_signal(s if isinstance(m[1], str) else type(s)(hold('add_signal values', m[1]), s.dt))
     elif name == 'butter_pass':
-        s.butter_pass(tuple(m[1]), **m[2])
+        form = m[3] if len(m) > 3 else 'tuple'
+        cut = np.array(m[1], dtype=float) if form == 'array' else (list(m[1]) if form == 'list' else tuple(m[1]))
+        s.butter_pass(hold('butter_pass cut_off', cut), **m[2])
     elif name == 'remove_average':
         s.remove_average(section=m[1])
     elif name == 'remove_poly':
@@ -723,26 +1075,52 @@ def _read(eqsig, s, what):
 
 
 def rel_history(ctx, eqsig, p):
-    """read(s) -> one or two public mutators -> read(s) again. The verdict comes from the lazy monitor: whatever is read
-    must be dt*DFT of the object's CURRENT zero-padded values (clauses lazy-after-mutation.* for the first read after a
-    change of the values, lazy.* for the others). Exceptions of a mutator are counted, not judged (C17 judges the
-    mutators); the read after is judged in any case."""
+    """A history of steps on one object (or on two twin objects): reads of the lazy properties / max_fa_period, explicit
+    regenerations with options, array-level spectrum calls on the object, public mutators and interaction steps, in the
+    order given by p['steps'] = [[object index, kind, args...], ...]. The verdict comes from the monitors: whatever is
+    read or computed must be dt*DFT of the object's CURRENT zero-padded values (clauses lazy-after-mutation.* for the
+    first read after a change of the values, lazy.* / gen_fa_spectrum.* / calc_fa_spectrum.* ... for the others).
+    Exceptions of a mutator are counted, not judged (C17 judges the mutators); what follows is judged in any case.
+    Twins: 'same-array' builds both objects from one caller array, 'from-values' builds the second from the first one's
+    .values, 'reset-same-array' resets both to one caller array. At the end every array handed in is what it was."""
     _HISTORY[0] = p
+    held = []
     try:
-        s = _mk(eqsig, p['cls'], p['values'], p['dt'])
-        g = p.get('gen')
-        if g:
-            s.gen_fa_spectrum(p2_plus=g.get('p2_plus', 0), n=g.get('n'))
-        for what in p['reads_before']:
-            _read(eqsig, s, what)
-        for m in p['mutators']:
-            try:
-                with np.errstate(all='ignore'):
-                    _apply_mutator(eqsig, s, m)
-            except Exception as e:
-                ctx.observe('history: mutator %s raised %s (counted, not judged here)' % (m[0], type(e).__name__))
-        for what in p['reads_after']:
-            _read(eqsig, s, what)
+        A = _as_form(p['values'], p.get('form'))
+        held.append(('constructor values', A, _snapshot(A)))
+        objs = [_mk(eqsig, p['cls'], A, p['dt'])]
+        twin = p.get('twin')
+        if twin:
+            other = 'Signal' if p['cls'] == 'AccSignal' and twin != 'from-values' else p['cls']
+            if twin == 'same-array':
+                objs.append(_mk(eqsig, other, A, p['dt']))
+            elif twin == 'from-values':
+                objs.append(_mk(eqsig, other, objs[0].values, p['dt']))
+            else:
+                B = p['twin_values']
+                held.append(('array both twins were reset to', B, _snapshot(B)))
+                objs.append(_mk(eqsig, other, np.zeros(3), p['dt']))
+                for o in objs:
+                    o.reset_values(B)
+        for st in p['steps']:
+            s, kind = objs[min(int(st[0]), len(objs) - 1)], st[1]
+            if kind == 'read':
+                _read(eqsig, s, st[2])
+            elif kind == 'gen':
+                s.gen_fa_spectrum(p2_plus=st[2], n=st[3])
+            elif kind == 'generate':
+                eqsig.generate_fa_spectrum(s, n_pad=st[2])
+            elif kind == 'calc':
+                eqsig.calc_fa_spectrum(s, n=st[2], p2_plus=st[3])
+            else:
+                try:
+                    with np.errstate(all='ignore'):
+                        _apply_mutator(eqsig, s, st[2], held)
+                except Exception as e:
+                    ctx.observe('history: mutator %s raised %s (counted, not judged here)' % (st[2][0], type(e).__name__))
+        bad = [label for label, obj, snap in held if not _unchanged(obj, snap)]
+        _judge(ctx, not bad, 'argument-unchanged[record]', lambda: dict(p, fn='rel.history'),
+               'arrays handed to the object(s) changed during the history: %s' % bad)
     finally:
         _HISTORY[0] = None
 
@@ -758,19 +1136,23 @@ def _draw_history(rng, h, tier):
     lo = 64 if need_long else 4
     npts = int(round(2.0 ** rng.uniform(np.log2(lo), np.log2(nmax if need_long or rng.random() < 0.3 else 200))))
     npts = min(max(npts, lo), nmax)
-    x = np.zeros(npts)
-    while not np.any(x != 0):
-        x, rcls = gen.record(rng, npts)
     interaction = any(k in INVERSE_STEPS for k in kinds)
-    if interaction:                                     # clearly non-zero mean: bin 0 of the spectrum carries weight
-        x = x + float(rng.choice([-1.0, 1.0])) * float(rng.integers(1, 4)) * float(np.max(np.abs(x)))
-        rcls += '+offset'
-    cont = 'f64'
-    if np.all(x == np.round(x)) and rng.random() < 0.3:
-        xin, cont = x.astype(np.int64), 'i64'         # in-place corrections raise on these: counted, read-after still judged
-    else:
-        xin = x
-    dt = gen.dt(rng)
+    form = None
+    if need_long or interaction or rng.random() < 0.6:
+        x = np.zeros(npts)
+        while not np.any(x != 0):
+            x, rcls = gen.record(rng, npts)
+        if interaction:                                     # clearly non-zero mean: bin 0 of the spectrum carries weight
+            x = x + float(rng.choice([-1.0, 1.0])) * float(rng.integers(1, 4)) * float(np.max(np.abs(x)))
+            rcls += '+offset'
+        cont = 'f64'
+        if np.all(x == np.round(x)) and rng.random() < 0.3:
+            xin, cont = x.astype(np.int64), 'i64'     # in-place corrections raise on these: counted, read-after still judged
+        else:
+            xin = x
+    else:                                                   # any dtype / container / view form for the simple mutators
+        xin, form, rcls, cont = _draw_input(rng, npts)
+    dt = gen.dt(rng) if need_long or rng.random() < 0.7 else _draw_dt(rng)[0]
     mutators = []
     n_now = npts
     for k in kinds:
@@ -781,19 +1163,54 @@ def _draw_history(rng, h, tier):
             if n_now < 64:
                 break                                   # later long-only mutators would only raise
     names = ['fa_spectrum', 'fa_freqs', 'fa_frequencies']
-    before = [names[int(i)] for i in rng.permutation(3)[:int(rng.integers(1, 4))]]
-    after = [names[int(i)] for i in rng.permutation(3)[:int(rng.integers(1, 4))]]
-    if rng.random() < 0.3:
-        before.insert(int(rng.integers(len(before) + 1)), 'max_fa_period')
-    if rng.random() < 0.5:
-        after.insert(int(rng.integers(len(after) + 1)), 'max_fa_period')
-    g = None
+
+    def reads(o, pmax):
+        out = [[o, 'read', names[int(i)]] for i in rng.permutation(3)[:int(rng.integers(1, 4))]]
+        if rng.random() < pmax:
+            out.insert(int(rng.integers(len(out) + 1)), [o, 'read', 'max_fa_period'])
+        return out
+
+    def extra(o, n_cur):
+        """An explicit regeneration with options, an array-level call on the object, or a repeated read."""
+        r = rng.random()
+        if r < 0.3:
+            return [o, 'gen', int(rng.integers(0, 4)), None] if rng.random() < 0.6 else [o, 'gen', 0, n_cur + int(rng.integers(0, n_cur + 2))]
+        if r < 0.45:
+            return [o, 'generate', bool(rng.random() < 0.5)]
+        if r < 0.7:
+            k = int(rng.integers(3))
+            return [o, 'calc', None, None] if k == 0 else ([o, 'calc', n_cur + int(rng.integers(0, 9)), None] if k == 1
+                                                           else [o, 'calc', None, int(rng.integers(0, 4))])
+        return [o, 'read', names[int(rng.integers(3))]]
+
+    twin = None
+    p = {'values': xin, 'form': form, 'dt': dt, 'cls': clsname}
+    if rng.random() < 0.2:
+        twin = ['same-array', 'from-values', 'reset-same-array'][int(rng.integers(3))]
+        if twin == 'reset-same-array':
+            p['twin_values'] = gen.record(rng, npts)[0] + (1.0 if interaction else 0.0)
+    p['twin'] = twin
+    steps = []
     r = rng.random() * (0.5 if interaction else 1.0)      # interaction steps: half of them after an explicit generation
     if r < 0.2:
-        g = {'p2_plus': int(rng.integers(0, 4)), 'n': None}
+        steps.append([0, 'gen', int(rng.integers(0, 4)), None])
     elif r < 0.3:
-        g = {'p2_plus': 0, 'n': npts + int(rng.integers(0, npts + 2))}
-    p = {'values': xin, 'dt': dt, 'cls': clsname, 'gen': g, 'reads_before': before, 'mutators': mutators, 'reads_after': after}
+        steps.append([0, 'gen', 0, npts + int(rng.integers(0, npts + 2))])
+    steps += reads(0, 0.3)
+    if twin:
+        steps += reads(1, 0.3)                            # the twin's spectrum exists before the first object is touched
+    for m in mutators:
+        if rng.random() < 0.15:
+            steps.append(extra(0, n_now))
+        steps.append([0, 'mut', m])
+    steps += reads(0, 0.5)
+    if twin:
+        steps += reads(1, 0.5)
+    for _ in range(int(rng.integers(0, 4))):              # tail: more steps in random order, with repeats
+        steps.append(extra(int(rng.integers(2)) if twin else 0, n_now))
+    if rng.random() < 0.3:
+        steps += reads(0, 0.3)
+    p['steps'] = steps
     return p, kinds, rcls, cont
 
 
@@ -829,9 +1246,20 @@ def _lengths(tier):
     return out
 
 
-def _draw_record(rng, npts, cls=None):
-    x, rcls = gen.record(rng, npts, cls=cls)
-    return x, rcls
+def _draw_case(rng, npts, i, fixed, ci):
+    """Parameters of one rel_agreement case (everything that is random is drawn here and stored, for the replay)."""
+    xin, form, rcls, cont = _draw_input(rng, npts)
+    dt, dt_form = _draw_dt(rng)
+    p = {'values': xin, 'form': form, 'dt': dt, 'dt_form': dt_form, 'cls': 'AccSignal' if ci % 2 else 'Signal',
+         'p2_plus': int(i % 4) if fixed else int(rng.integers(0, 4)),
+         'n': _explicit_n(rng, npts, i if fixed else int(rng.integers(0, 6))),
+         'int_form': [None, None, 'np.int64', 'np.int32'][int(rng.integers(4))],
+         'style': ['kw', 'kw', 'pos', 'kw-all'][int(rng.integers(4))],
+         'both': bool(rng.random() < 0.25),
+         'fas_form': [None, None, None, 'list', 'tuple', 'readonly', 'strided', 'c64'][int(rng.integers(8))],
+         'stype': 'signal' if rng.random() < 0.5 else 'acc', 'signal_on': ['default', 'n', 'nopad'][int(rng.integers(3))],
+         'first': ['fa_spectrum', 'fa_freqs', 'fa_frequencies', 'method'][int(rng.integers(4))]}
+    return p, rcls, cont
 
 
 def run_shard(ctx):
@@ -842,7 +1270,7 @@ def run_shard(ctx):
     quick = ctx.tier == 'quick'
     nmax = 2048 if quick else 4096
     plan = _lengths(ctx.tier)
-    n_random = 500 if quick else 2400
+    n_random = 500 if quick else 4000
     n_fixed = len(plan)
     total = n_fixed + n_random
     n_enum = 0
@@ -856,39 +1284,33 @@ def run_shard(ctx):
             npts = int(round(2.0 ** rng.uniform(1.0, np.log2(nmax))))
             npts = min(max(npts, 2), nmax)
             gcls, i = 'random-length', ci
-        x, rcls = _draw_record(rng, npts)
-        dt = gen.dt(rng)
-        clsname = 'AccSignal' if ci % 2 else 'Signal'
-        cont = 'f64'
-        if rcls in ('plateau', 'intnoise') and np.all(x == np.round(x)) and rng.random() < 0.5:
-            xin, cont = x.astype(np.int64), 'i64'
-        elif rng.random() < 0.1:
-            xin, cont = [float(v) for v in x], 'list'
-        else:
-            xin = x
-        p = {'values': xin, 'dt': dt, 'cls': clsname, 'p2_plus': int(i % 4) if ci < n_fixed else int(rng.integers(0, 4)),
-             'n': _explicit_n(rng, npts, i if ci < n_fixed else int(rng.integers(0, 6))),
-             'stype': 'signal' if rng.random() < 0.5 else 'acc', 'signal_on': ['default', 'n', 'nopad'][int(rng.integers(3))],
-             'first': ['fa_spectrum', 'fa_freqs', 'fa_frequencies', 'method'][int(rng.integers(4))]}
-        nontriv = bool(np.any(x != 0))
-        ctx.case(core.digest(x, dt, clsname, p['p2_plus'], p['n']), nontrivial=nontriv, cls='%s/%s' % (gcls, rcls),
-                 sample={'npts': npts, 'dt': dt, 'cls': clsname, 'record': rcls, 'container': cont, 'p2_plus': p['p2_plus'],
-                         'n': p['n'], 'head': x[:6]})
+        p, rcls, cont = _draw_case(rng, npts, i, ci < n_fixed, ci)
+        dt, clsname = p['dt'], p['cls']
+        xv = np.asarray(p['values'], dtype=float)
+        nontriv = bool(np.any(xv != 0))
+        ctx.case(core.digest(xv, cont, dt, p['dt_form'], clsname, p['p2_plus'], p['n']), nontrivial=nontriv,
+                 cls='%s/%s/%s' % (gcls, rcls, cont),
+                 sample={'npts': npts, 'dt': dt, 'dt_form': p['dt_form'], 'cls': clsname, 'record': rcls, 'container': cont,
+                         'p2_plus': p['p2_plus'], 'n': p['n'], 'style': p['style'], 'int_form': p['int_form'],
+                         'fas_form': p['fas_form'], 'head': xv[:6]})
+        ctx.observe('input form: %s' % cont)
         if ci < n_fixed:
             n_enum += 1
         try:
             rel_agreement(ctx, eqsig, p)
         except Exception as e:
             ctx.exception('gen_fa_spectrum.bins==dt*DFT', dict(p, fn='rel.agreement'), e)
-        # relations between executions on a part of the cases
+        # relations between executions on a part of the cases (float64 records, float dt)
+        x = gen.record(rng, npts)[0] if ci % 3 != 2 else None
+        dtr = float(dt)
         if ci % 3 == 0:
-            y, _ = _draw_record(rng, npts)
+            y, _ = gen.record(rng, npts)
             if rng.random() < 0.5:
                 a, b = float(2.0 ** rng.integers(-3, 4)), float(-(2.0 ** rng.integers(-3, 4)))
             else:
                 a, b = float(rng.normal()), float(rng.normal() * 10.0 ** rng.uniform(-2, 2))
             mode = [('default',), ('p2', p['p2_plus']), ('n', p['n']), ('nopad',)][int(rng.integers(4))]
-            q = {'x': x, 'y': y, 'a': a, 'b': b, 'dt': dt, 'mode': list(mode), 'cls': clsname,
+            q = {'x': x, 'y': y, 'a': a, 'b': b, 'dt': dtr, 'mode': list(mode), 'cls': clsname,
                  'level': 'object' if rng.random() < 0.5 else 'array'}
             try:
                 rel_linearity(ctx, eqsig, q)
@@ -902,26 +1324,48 @@ def run_shard(ctx):
                 nn = npts + int(rng.integers(1, npts + 4))
                 mode, room = ('n', nn), nn - npts
             nz = int(rng.integers(1, room + 1))
-            q = {'values': x, 'nz': nz, 'dt': dt, 'mode': list(mode), 'cls': clsname,
+            q = {'values': x, 'nz': nz, 'dt': dtr, 'mode': list(mode), 'cls': clsname,
                  'level': 'object' if rng.random() < 0.5 else 'array'}
             try:
                 rel_trailing_zeros(ctx, eqsig, q)
             except Exception as e:
                 ctx.exception('trailing-zeros', dict(q, fn='rel.trailing_zeros'), e)
+        if ci % 4 == 2:
+            mode = [('default',), ('p2', p['p2_plus']), ('n', p['n']), ('nopad',)][int(rng.integers(4))]
+            q = {'x1': gen.record(rng, npts)[0], 'x2': gen.record(rng, npts)[0], 'dt': dtr, 'mode': list(mode), 'cls': clsname,
+                 'stype': p['stype']}
+            try:
+                rel_back_to_back(ctx, eqsig, q)
+            except Exception as e:
+                ctx.exception('back-to-back.first-result-intact', dict(q, fn='rel.back_to_back'), e)
     ctx.exhaustive['record_lengths_2..130_and_pow2+-1_cases'] = n_enum
+    # -- a few long records past 2**16 (sampled bins) ----------------------------------------------------------------
+    n_long = 4 if quick else 32
+    for li in core.split_range(n_long, ctx.shard, ctx.nshards):
+        npts = (1 << 16) + [1, 2, 37, 1000][li % 4] + 2 * (li // 4)
+        x, rcls = gen.record(rng, npts, cls=['noise', 'quake', 'walk', 'chirp'][li % 4])
+        p = {'values': x, 'form': None, 'dt': gen.dt(rng), 'dt_form': None, 'cls': 'AccSignal' if li % 2 else 'Signal', 'p2_plus': 0,
+             'n': npts, 'int_form': None, 'style': 'kw', 'both': False, 'fas_form': None, 'stype': 'signal',
+             'signal_on': 'nopad', 'first': 'fa_spectrum', 'lite': True}
+        ctx.case(core.digest(x, p['dt'], 'long'), nontrivial=True, cls='long>2**16/%s' % rcls,
+                 sample={'npts': npts, 'dt': p['dt'], 'cls': p['cls'], 'record': rcls, 'long': True})
+        try:
+            rel_agreement(ctx, eqsig, p)
+        except Exception as e:
+            ctx.exception('gen_fa_spectrum.bins==dt*DFT', dict(p, fn='rel.agreement'), e)
     # -- object histories: read -> mutate through the public API -> read again --------------------------------------
-    n_hist = 656 if quick else 4100
+    n_hist = 656 if quick else 8200
     for h in core.split_range(n_hist, ctx.shard, ctx.nshards):
         if ctx.out_of_time():
             ctx.observe('stopped by the safety-net budget')
             break
         p, kinds, rcls, cont = _draw_history(rng, h, ctx.tier)
-        ctx.case(core.digest(p['values'], p['dt'], p['cls'], repr(p['mutators']), p['reads_before'], p['reads_after']),
-                 nontrivial=True, cls='history/%s/%s' % (p['cls'], '+'.join(kinds)),
+        ctx.case(core.digest(np.asarray(p['values'], dtype=float), cont, p['dt'], p['cls'], repr(p['steps'])),
+                 nontrivial=True, cls='history/%s/%s%s' % (p['cls'], '+'.join(kinds), '/twin:' + p['twin'] if p['twin'] else ''),
                  sample={'history': True, 'npts': len(p['values']), 'dt': p['dt'], 'cls': p['cls'], 'record': rcls,
-                         'container': cont, 'gen': p['gen'], 'reads_before': p['reads_before'],
-                         'mutators': [[m[0]] + [a for a in m[1:] if not isinstance(a, np.ndarray)] for m in p['mutators']],
-                         'reads_after': p['reads_after']})
+                         'container': cont, 'twin': p['twin'],
+                         'steps': [[a if not isinstance(a, (np.ndarray, list)) or len(a) < 4 else '<%d values>' % len(a)
+                                    for a in (st[:2] + (list(st[2]) if st[1] == 'mut' else st[2:]))] for st in p['steps']]})
         try:
             rel_history(ctx, eqsig, p)
         except Exception as e:
@@ -936,17 +1380,21 @@ def run_shard(ctx):
                 ctx.observe('env: %s runs' % name)
             except Exception as e:
                 ctx.observe('env: %s raises %s (anchored mechanism, outside the statement)' % (name, type(e).__name__))
-        try:
-            s.gen_fa_spectrum(n=16)          # truncation: counted by the monitor, not judged
-        except Exception as e:
-            ctx.observe('probe n<npts raises %s' % type(e).__name__)
-        try:
-            eqsig.Signal(np.sin(np.arange(40) * 0.3).astype(np.float32), 0.01).fa_spectrum
-        except Exception as e:
-            ctx.observe('probe float32 raises %s' % type(e).__name__)
+        probes = [('n<npts', lambda: s.gen_fa_spectrum(n=16)),                       # counted by the monitor, not judged
+                  ('float n', lambda: s.gen_fa_spectrum(n=64.0)),
+                  ('float p2_plus', lambda: s.gen_fa_spectrum(p2_plus=1.0)),
+                  ('one-sample record', lambda: eqsig.Signal([1.0], 0.01).fa_spectrum),
+                  ('float16 record', lambda: eqsig.Signal(np.sin(np.arange(40) * 0.3).astype(np.float16), 0.01).fa_spectrum)]
+        for name, fn in probes:
+            try:
+                fn()
+                ctx.observe('probe %s: accepted (outside the quantifier, not judged)' % name)
+            except Exception as e:
+                ctx.observe('probe %s: raises %s' % (name, type(e).__name__))
     ctx.note('monitored_calls', dict(attach.CALLS))
     ctx.note('tolerances', {'bin_rel_to_dt_sum_abs_x': RTOL_BIN, 'freq_rel': RTOL_FREQ, 'amplitude_tie': RTOL_TIE,
-                            'parseval_rel': RTOL_PARSEVAL, 'inverse_rel_to_peak': RTOL_INV, 'full_bins_up_to_N': FULL_N})
+                            'parseval_rel': RTOL_PARSEVAL, 'inverse_rel_to_peak': RTOL_INV, 'full_bins_up_to_N': FULL_N,
+                            'single_precision_class(float32 record or dt)': LOOSE})
 
 
 # ---------------------------------------------------------------------------------------------------- replay
@@ -963,6 +1411,8 @@ def replay(w):
         rel_linearity(ctx, eqsig, w)
     elif fn == 'rel.trailing_zeros':
         rel_trailing_zeros(ctx, eqsig, w)
+    elif fn == 'rel.back_to_back':
+        rel_back_to_back(ctx, eqsig, w)
     elif fn == 'rel.history':
         rel_history(ctx, eqsig, w)
     elif fn == 'fas2values':
@@ -970,8 +1420,11 @@ def replay(w):
     elif fn == 'fas2signal':
         eqsig.fas2signal(w['fas'], w['dt'], stype=w['stype'])
     else:
-        s = _mk(eqsig, w['cls'], w['values'], w['dt'])
+        s = _mk(eqsig, w['cls'], w['values'], _dt_as(w['dt'], w.get('dt_form')))
         prior = w.get('prior_gen')
+        for k in ('n', 'p2_plus'):
+            if w.get(k) is not None and w.get(k + '_form'):
+                w[k] = _int_as(w[k], w[k + '_form'])
         if fn == 'Signal.gen_fa_spectrum':
             s.gen_fa_spectrum(p2_plus=w['p2_plus'], n=w['n'])
         elif fn in ('Signal.fa_spectrum', 'Signal.fa_freqs', 'max_fa_period'):
